@@ -244,6 +244,54 @@ func runUDPIdle() (*udpTrace, error) {
 	return &udpTrace{ID: "udpgate:idle:0", Complete: expired, Scen: map[string]any{"schedule": "idle expiry (30 s)", "expired": expired}, Hist: rec.Snapshot()}, nil
 }
 
+// runUDPErrHandler: the handler of client 1's first datagram returns an ERROR; after things have settled, client 1
+// sends seven more datagrams and client 2 one: every one of them must be served by some association (the first
+// association is over), and the loop must not be blocked.
+func runUDPErrHandler(idx int) (*udpTrace, error) {
+	rec := vh.NewRecorder(nil)
+	pc := vh.NewFakePC(rec)
+	g := &udpGates{rec: rec, hold: map[string]chan struct{}{}, reached: map[string]chan struct{}{}}
+	layer4.SetVerifHook(g.hook)
+	defer layer4.SetVerifHook(nil)
+	srv, cancel, err := udpServer(map[string]any{"handler": "verif_h", "k": "udp", "n": 1, "echo": true, "fail": true})
+	if err != nil {
+		return nil, err
+	}
+	defer cancel()
+	vh.RegisterRec(vh.ClientAddr(1).String(), rec)
+	vh.RegisterRec(vh.ClientAddr(2).String(), rec)
+	go layer4.VerifServePacket(srv, pc)
+	pc.Inject(1, 1, 64)
+	waitEv(rec, func(e vh.Ev) bool { return e["e"] == "End" }, 0, 2*time.Second)
+	time.Sleep(60 * time.Millisecond)
+	rec.Add(vh.Ev{"e": "Settled"})
+	injected := make(chan struct{})
+	go func() {
+		defer close(injected)
+		for seq := 2; seq <= 8; seq++ {
+			pc.Inject(1, seq, 64)
+			time.Sleep(15 * time.Millisecond)
+		}
+		pc.Inject(2, 9, 64)
+	}()
+	select {
+	case <-injected:
+	case <-time.After(3 * time.Second):
+	}
+	last, stable := -1, 0
+	for i := 0; i < 400 && stable < 10; i++ {
+		time.Sleep(5 * time.Millisecond)
+		if n := rec.Len(); n == last {
+			stable++
+		} else {
+			last, stable = n, 0
+		}
+	}
+	pc.Close()
+	time.Sleep(5 * time.Millisecond)
+	return &udpTrace{ID: fmt.Sprintf("udpgate:errhandler:%d", idx), Complete: true, Scen: map[string]any{"schedule": "handler returns an error, later datagrams"}, Hist: rec.Snapshot()}, nil
+}
+
 // runUDPMultiClose: n associations, each closed by 8 goroutines at once plus the server's own deferred Close.
 func runUDPMultiClose(n int) error {
 	rec := vh.NewRecorder(nil)
@@ -294,6 +342,14 @@ func init() {
 			if len(samples) < 1 {
 				samples = append(samples, tr)
 			}
+		}
+		for i := 0; i < 3; i++ {
+			fmt.Printf("SCENARIO errhandler %d\n", i)
+			tr, err := runUDPErrHandler(i)
+			if err != nil {
+				return err
+			}
+			lw.Write(tr)
 		}
 		if *idle {
 			fmt.Printf("SCENARIO idle\n")
